@@ -70,14 +70,49 @@ def _evaluate(env, c, asg, form, noise=None):
     if form == "kwargs":
         return env.call(lambda: c(**scope))
     if form == "dict":
-        return env.call(c.get_value_for_assignment, dict(scope))
+        given = dict(scope)
+        r = env.call(c.get_value_for_assignment, given)
+        _assignment_kept(env, form, given, dict(scope))
+        return r
     if form == "list":
-        return env.call(c.get_value_for_assignment, [asg[v.name] for v in c.dimensions])
+        given = [asg[v.name] for v in c.dimensions]
+        r = env.call(c.get_value_for_assignment, given)
+        _assignment_kept(env, form, given, [asg[v.name] for v in c.dimensions])
+        return r
     if form == "assignment_cost":
         full = dict(noise or {})
         full.update(asg)
-        return env.call(R.assignment_cost, full, [c])
+        given, cs = dict(full), [c]
+        r = env.call(R.assignment_cost, given, cs)
+        _assignment_kept(env, form, given, full)
+        env.prove("repair.frame.constraint-list-handed-to-assignment_cost-unchanged", len(cs) == 1 and cs[0] is c, detail=lambda: cs)
+        return r
     raise ValueError(form)
+
+
+def _assignment_kept(env, form, given, expected):
+    """frame: evaluating a repair constraint does not write into the assignment the caller handed in (MGM2 evaluates all its
+    constraints on one and the same assignment dict); the values are the plain 0/1 the harness put there"""
+    same = type(given) is type(expected) and len(given) == len(expected) and (
+        all(k in given and given[k] is expected[k] for k in expected) if isinstance(expected, dict)
+        else all(x is y for x, y in zip(given, expected)))
+    env.prove("repair.frame.assignment-handed-to-the-constraint-unchanged[%s]" % form, same, detail=lambda: dict(handed=expected, after=given))
+
+
+def _table(d):
+    """observational snapshot of a dict of objects: keys in order, values by identity"""
+    return [(k, id(v)) for k, v in d.items()]
+
+
+def _deep(x):
+    """structural copy of candidate information (tuples / lists / dicts / sets of names)"""
+    if isinstance(x, dict):
+        return {k: _deep(v) for k, v in x.items()}
+    if isinstance(x, (list, tuple)):
+        return type(x)(_deep(v) for v in x)
+    if isinstance(x, (set, frozenset)):
+        return frozenset(x)
+    return x
 
 
 def _scope_names(c):
@@ -96,6 +131,7 @@ def h_hosted(env):
     comp = "c3"
     agts = AGENTS[:n]
     bv = create_binary_variables("B", ([comp], agts))      # as ResilientAgent.setup_repair
+    bv_before = _table(bv)
     c = env.call(REP.create_computation_hosted_constraint, comp, bv)
     if isinstance(c, Raised):
         env.prove("hosted.constraint-is-built", False, detail=lambda: c.tb)
@@ -117,6 +153,18 @@ def h_hosted(env):
         if not exactly_one:
             env.prove("hosted.unhosted-or-multiply-hosted-scores-the-hard-penalty", eq(got, PENALTY),
                       detail=lambda: dict(assignment=asg, value=got, form=form))
+    # frame: the table of binary variables is the caller's (setup_repair keeps filling / reading it); a second constraint
+    # built from the same table answers to the same rule, and the first one still does
+    env.prove("hosted.frame.binary-variable-table-unchanged", _table(bv) == bv_before, detail=lambda: (bv_before, _table(bv)))
+    c2 = env.call(REP.create_computation_hosted_constraint, comp, bv)
+    for cc, which in ((c2, "second-constraint-from-the-same-table"), (c, "first-constraint-after-the-second-was-built")):
+        for bits in ([0] * n, [1] + [0] * (n - 1), [1] * n):
+            asg = {bv[(comp, a)].name: b for a, b in zip(agts, bits)}
+            got = cc if isinstance(cc, Raised) else _evaluate(env, cc, asg, form, noise)
+            env.prove("hosted.frame.%s-follows-the-same-rule" % which,
+                      (not isinstance(got, Raised)) and eq(got, 0 if sum(bits) == 1 else PENALTY),
+                      detail=lambda: dict(assignment=asg, value=got, form=form))
+    env.prove("hosted.frame.binary-variable-table-unchanged", _table(bv) == bv_before, detail=lambda: (bv_before, _table(bv)))
 
 
 Contract(
@@ -148,6 +196,7 @@ def h_capacity(env):
         asked.append(c_name)
         return fp[c_name]
 
+    bv_before, fp_before = _table(bv), _table(fp)
     c = env.call(REP.create_agent_capacity_constraint, own, remaining, footprint_func, bv)
     if isinstance(c, Raised):
         env.prove("capacity.constraint-is-built", False, detail=lambda: c.tb)
@@ -167,6 +216,18 @@ def h_capacity(env):
     d = lambda: dict(assignment=asg, value=got, footprints=fp, remaining=remaining, form=form)  # noqa
     env.prove("capacity.zero-iff-selected-footprints-fit-the-remaining-capacity", Iff(eq(got, 0), fits), detail=d)
     env.prove("capacity.overflow-scores-the-hard-penalty", Implies(Not(fits), eq(got, PENALTY)), detail=d)
+    # frame: tables unchanged; the hosting constraint of the same agent is built from the same table (setup_repair) and the
+    # capacity constraint asked again on the same assignment gives the same value
+    env.prove("capacity.frame.binary-variable-and-footprint-tables-unchanged", _table(bv) == bv_before and _table(fp) == fp_before,
+              detail=lambda: (bv_before, _table(bv)))
+    other = env.call(REP.create_agent_hosting_constraint, own, footprint_func, bv)
+    if not isinstance(other, Raised):
+        _evaluate(env, other, asg, form, {"Bc9_a9": 1})
+    again = _evaluate(env, c, asg, form, {"Bc9_a9": 1})
+    env.prove("capacity.frame.same-value-when-asked-again-after-another-constraint-used-the-same-table",
+              (not isinstance(again, Raised)) and eq(again, got), detail=lambda: dict(d(), again=again))
+    env.prove("capacity.frame.binary-variable-and-footprint-tables-unchanged", _table(bv) == bv_before and _table(fp) == fp_before,
+              detail=lambda: (bv_before, _table(bv)))
 
 
 Contract(
@@ -194,6 +255,7 @@ def h_hosting(env):
     def hosting_func(c_name):
         return hc[c_name]
 
+    bv_before, hc_before = _table(bv), _table(hc)
     c = env.call(REP.create_agent_hosting_constraint, own, hosting_func, bv)
     if isinstance(c, Raised):
         env.prove("hosting.constraint-is-built", False, detail=lambda: c.tb)
@@ -211,6 +273,16 @@ def h_hosting(env):
         exp = ssum([hc[cn] for cn, b in zip(comps, bits) if b == 1])
         env.prove("hosting.value-is-sum-of-hosting-costs-of-the-selected-computations", eq(got, exp),
                   detail=lambda: dict(assignment=asg, value=got, expected=exp, form=form))
+    # frame: tables unchanged; a second constraint built from the same table follows the same rule (all selected)
+    env.prove("hosting.frame.binary-variable-and-cost-tables-unchanged", _table(bv) == bv_before and _table(hc) == hc_before,
+              detail=lambda: (bv_before, _table(bv)))
+    c2 = env.call(REP.create_agent_hosting_constraint, own, hosting_func, bv)
+    asg = {bv[(cn, own)].name: 1 for cn in comps}
+    got = c2 if isinstance(c2, Raised) else _evaluate(env, c2, asg, form, {"Bc9_a9": 1})
+    env.prove("hosting.frame.second-constraint-from-the-same-table-follows-the-same-rule",
+              (not isinstance(got, Raised)) and eq(got, ssum([hc[cn] for cn in comps])), detail=lambda: dict(assignment=asg, value=got, form=form))
+    env.prove("hosting.frame.binary-variable-and-cost-tables-unchanged", _table(bv) == bv_before and _table(hc) == hc_before,
+              detail=lambda: (bv_before, _table(bv)))
 
 
 Contract(
@@ -263,10 +335,13 @@ def h_comm(env):
         bv.update(create_binary_variables("B", ([v], ags)))
     comm, tab = _comm_table(env)
     info = (list(p["agts"]), dict(p["fixed"]), {v: list(a) for v, a in p["cneigh"].items()})
+    bv_before, info_before = _table(bv), _deep(info)
     c = env.call(REP.create_agent_comp_comm_constraint, own, cand, info, comm, bv)
     if isinstance(c, Raised):
         env.prove("comm.constraint-is-built", False, detail=lambda: c.tb)
         return
+    env.prove("comm.frame.candidate-info-and-binary-variable-table-unchanged[after-building]", info == info_before and _table(bv) == bv_before,
+              detail=lambda: dict(info_before=info_before, info_after=info))
     local = bv[(cand, own)].name
     pairs = [(v, a) for v, ags in p["cneigh"].items() for a in ags]
     needed = [local] + [bv[(v, a)].name for v, a in pairs]
@@ -293,6 +368,21 @@ def h_comm(env):
         exp = asg[local] * (with_fixed + with_cand)
         env.prove("comm.value-is-local-hosting-times-sum-of-comm-costs-to-fixed-and-selected-candidate-neighbours",
                   eq(got, exp), detail=lambda: dict(assignment=asg, value=got, expected=exp, form=form))
+    # frame: the candidate information (a triple of lists / dicts the agent keeps for the whole repair) and the table of
+    # binary variables are read, not written; a second constraint built from the same information follows the same rule
+    env.prove("comm.frame.candidate-info-and-binary-variable-table-unchanged[after-evaluating]", info == info_before and _table(bv) == bv_before,
+              detail=lambda: dict(info_before=info_before, info_after=info))
+    c2 = env.call(REP.create_agent_comp_comm_constraint, own, cand, info, comm, bv)
+    asg = {n: 1 for n in names}
+    if not isinstance(c2, Raised):
+        for v in c2.dimensions:
+            asg.setdefault(v.name, 0)
+    got = c2 if isinstance(c2, Raised) else _evaluate(env, c2, asg, form, {"Bc9_a9": 1})
+    exp = ssum([comm(cand, v, a) for v, a in p["fixed"].items()]) + ssum([comm(cand, v, a) for v, a in pairs])
+    env.prove("comm.frame.second-constraint-from-the-same-info-follows-the-same-rule", (not isinstance(got, Raised)) and eq(got, exp),
+              detail=lambda: dict(assignment=asg, value=got, expected=exp, form=form))
+    env.prove("comm.frame.candidate-info-and-binary-variable-table-unchanged[after-a-second-constraint]",
+              info == info_before and _table(bv) == bv_before, detail=lambda: dict(info_before=info_before, info_after=info))
 
 
 Contract(
@@ -357,8 +447,55 @@ def _no_dup(xs):
     return len(xs) == len(set(xs))
 
 
-def _check_removal_case(env, RM, d, cg, agents, hosting, replicas, nbrs, departed):
-    """all the obligations of one (discovery state, departed list); returns False when one failed"""
+def _observe_deployment(d, cg, agents, comps):
+    """what the removal functions are handed, as a caller reads it: discovery (host and replica holders of every
+    computation, computations of every agent) and the computation graph (neighbours and links of every computation)"""
+    return dict(
+        agents=sorted(d.agents()),
+        host={c: d.computation_agent(c) for c in comps},
+        replicas={c: frozenset(d.replica_agents(c)) for c in comps},
+        hosted={a: sorted(d.agent_computations(a)) for a in agents},
+        nodes=[n.name for n in cg.nodes],
+        neighbours={c: sorted(cg.neighbors(c)) for c in comps},
+        links={c: sorted(sorted(l.nodes) for l in cg.links_for_node(c)) for c in comps})
+
+
+def _check_removal_case(env, RM, d, cg, agents, hosting, replicas, nbrs, departed, pristine=None):
+    """all the obligations of one (discovery state, departed list); returns False when one failed.
+    ``pristine``: _observe_deployment of (d, cg) as built, for the frame obligations"""
+    comps_all = list(hosting)
+    if pristine is None:
+        pristine = _observe_deployment(d, cg, agents, comps_all)
+    handed = []     # (function, the list argument handed in, its expected content)
+    ok = _check_removal_case_(env, RM, d, cg, agents, hosting, replicas, nbrs, departed, handed)
+    # frame: the removal functions compute information FROM the departed list, the orphaned list, discovery and the graph; the
+    # orchestrator hands the same objects to every function and for every candidate agent (_agents_removal)
+    bad = [(fn, got, exp) for fn, got, exp in handed if got != exp]
+    ok &= env.prove("removal.frame.list-arguments-unchanged", not bad, detail=lambda: bad[:3])
+    now = _observe_deployment(d, cg, agents, comps_all)
+    ok &= env.prove("removal.frame.discovery-and-computation-graph-unchanged", now == pristine,
+                    detail=lambda: dict(departed=list(departed), before=pristine, after=now))
+    return ok
+
+
+def _scribble_info(r):
+    """use a returned candidate-info triple the way its receiver may: edit the lists / dicts"""
+    try:
+        agts, fixed, cands = r
+        if isinstance(agts, list):
+            agts.append("zz_agent")
+        if isinstance(fixed, dict):
+            fixed["zz_comp"] = "zz_agent"
+        if isinstance(cands, dict):
+            for v in cands.values():
+                if isinstance(v, list):
+                    v.append("zz_agent")
+            cands["zz_comp"] = ["zz_agent"]
+    except Exception:  # noqa
+        pass
+
+
+def _check_removal_case_(env, RM, d, cg, agents, hosting, replicas, nbrs, departed, handed):
     dep = set(departed)
     survivors = [a for a in agents if a not in dep]
     orphaned = {cn for cn, a in hosting.items() if a in dep}
@@ -367,33 +504,39 @@ def _check_removal_case(env, RM, d, cg, agents, hosting, replicas, nbrs, departe
                          neighbours={k: sorted(v) for k, v in nbrs.items()}, departed=list(departed))
     ok = True
 
-    r = env.call(RM._removal_orphaned_computations, list(departed), d)
+    def arg(fn, xs):
+        xs = list(xs)
+        handed.append((fn, xs, list(xs)))
+        return xs
+
+    r = env.call(RM._removal_orphaned_computations, arg("orphaned_computations", departed), d)
     if isinstance(r, Raised):
         return env.prove("removal.orphaned.no-raise", False, detail=lambda: (state(), r.tb))
     ok &= env.prove("removal.orphaned-are-exactly-the-computations-hosted-on-departed-agents",
                     set(r) == orphaned and _no_dup(r), detail=lambda: (state(), r))
     orphan_list = list(r) if set(r) == orphaned else sorted(orphaned)
 
-    r = env.call(RM._removal_candidate_agents, list(departed), d)
+    r = env.call(RM._removal_candidate_agents, arg("candidate_agents", departed), d)
     if isinstance(r, Raised):
         return env.prove("removal.candidate-agents.no-raise", False, detail=lambda: (state(), r.tb))
     ok &= env.prove("removal.candidate-agents-are-exactly-the-surviving-holders-of-a-replica-of-an-orphaned-computation",
                     set(r) == exp_cand_agents and _no_dup(r), detail=lambda: (state(), r, sorted(exp_cand_agents)))
 
     for o in sorted(orphaned):
-        r = env.call(RM._removal_candidate_computation_info, o, list(departed), cg, d)
+        r = env.call(RM._removal_candidate_computation_info, o, arg("candidate_computation_info", departed), cg, d)
         ok &= _check_comp_info(env, "removal.computation-info", r, o, dep, orphaned, hosting, replicas, nbrs, state)
+        _scribble_info(r)   # the triple is the receiver's: editing it reaches neither discovery / the graph nor a later answer
 
     for a in survivors + [x for x in departed if x in agents][:1]:
         exp_comps = {o for o in orphaned if a in replicas.get(o, ())}
-        r = env.call(RM._removal_candidate_computations_for_agt, a, list(orphan_list), d)
+        r = env.call(RM._removal_candidate_computations_for_agt, a, arg("candidate_computations_for_agt", orphan_list), d)
         if isinstance(r, Raised):
             return env.prove("removal.candidate-computations.no-raise", False, detail=lambda: (state(), a, r.tb))
         ok &= env.prove("removal.candidate-computations-of-an-agent-are-exactly-the-orphaned-computations-it-holds-a-replica-of",
                         set(r) == exp_comps and _no_dup(r), detail=lambda: (state(), a, r, sorted(exp_comps)))
         if a in dep:
             continue
-        r = env.call(RM._removal_candidate_agt_info, a, list(departed), cg, d)
+        r = env.call(RM._removal_candidate_agt_info, a, arg("candidate_agt_info", departed), cg, d)
         if isinstance(r, Raised):
             return env.prove("removal.agent-info.no-raise", False, detail=lambda: (state(), a, r.tb))
         ok &= env.prove("removal.agent-info-has-one-entry-per-candidate-computation-of-the-agent",
@@ -403,6 +546,8 @@ def _check_removal_case(env, RM, d, cg, agents, hosting, replicas, nbrs, departe
                 ok &= _check_comp_info(env, "removal.agent-info", r[o], o, dep, orphaned, hosting, replicas, nbrs, state)
                 ok &= env.prove("removal.agent-info.the-agent-is-a-candidate-of-each-of-its-entries",
                                 (not isinstance(r[o], Raised)) and a in list(r[o][0]), detail=lambda: (state(), a, o, r[o]))
+            for v in r.values():
+                _scribble_info(v)
     return ok
 
 
@@ -460,12 +605,13 @@ def h_removal_exhaustive(env):
     for combo in itertools.product(*per_comp):
         replicas = {cn: set(s) for cn, s in zip(comps, combo)}
         d = _mk_discovery(agents, hosting, replicas)
+        pristine = _observe_deployment(d, cg, agents, comps)
         for departed in _subsets(agents):
             env.cover("post")
-            if not _check_removal_case(env, RM, d, cg, agents, hosting, replicas, nbrs, departed):
+            if not _check_removal_case(env, RM, d, cg, agents, hosting, replicas, nbrs, departed, pristine):
                 return
             if len(departed) == 2:   # the order of the departed list is not part of the result
-                if not _check_removal_case(env, RM, d, cg, agents, hosting, replicas, nbrs, departed[::-1]):
+                if not _check_removal_case(env, RM, d, cg, agents, hosting, replicas, nbrs, departed[::-1], pristine):
                     return
 
 
@@ -517,14 +663,15 @@ def h_removal_sampled(env):
         dens = rng.choice([0.15, 0.4, 0.7])
         replicas = {cn: {a for a in agents if a != hosting[cn] and rng.random() < dens} for cn in comps}
         d = _mk_discovery(agents, hosting, replicas)
+        pristine = _observe_deployment(d, cg, agents, comps)
         for departed in _subsets(agents):
             if rng.random() < 0.5:
                 departed = departed[::-1]
             env.cover("post")
-            if not _check_removal_case(env, RM, d, cg, agents, hosting, replicas, nbrs, departed):
+            if not _check_removal_case(env, RM, d, cg, agents, hosting, replicas, nbrs, departed, pristine):
                 return
         # an agent discovery has never heard of leaves together with a known one
-        if not _check_removal_case(env, RM, d, cg, agents, hosting, replicas, nbrs, ["a9", agents[0]]):
+        if not _check_removal_case(env, RM, d, cg, agents, hosting, replicas, nbrs, ["a9", agents[0]], pristine):
             return
 
 
@@ -621,11 +768,17 @@ def h_repair_dcop(env):
             comm_cs[comp] = REP.create_agent_comp_comm_constraint(agt, comp, info[comp], comm, orphaned_binvars)
         return orphaned_binvars, hosted_cs, capacity_c, hosting_c, comm_cs
 
+    pristine = _observe_deployment(d, cg, agents, comps)
+    info_before = _deep(info)
     b = env.call(build)
     if isinstance(b, Raised):
         env.prove("repairdcop.constraints-are-built-from-the-info", False, detail=lambda: (departed, own, info, b.tb))
         return
     orphaned_binvars, hosted_cs, capacity_c, hosting_c, comm_cs = b
+    vars_before = _table(orphaned_binvars)
+    # frame: the candidate information received from the orchestrator is read by the four builders, not written
+    env.prove("repairdcop.frame.candidate-info-unchanged[after-building-the-constraints]", info == info_before,
+              detail=lambda: dict(before=info_before, after=info))
     # the repair variables the statement's rules talk about: x_o^a, o orphaned and known to `own`, a surviving holder
     known = list(K)
     for o in K:
@@ -644,8 +797,10 @@ def h_repair_dcop(env):
     asg = {name(o, a): b_ for (o, a), b_ in x.items()}
     det = lambda: dict(departed=departed, own=own, info=info, assignment=asg)  # noqa
 
+    shared = dict(asg)     # one assignment dict serves every evaluation, as in MGM2
+
     def val(label, cs):
-        r = env.call(R.assignment_cost, dict(asg), list(cs))
+        r = env.call(R.assignment_cost, shared, list(cs))
         if isinstance(r, Raised):
             env.prove("repairdcop.%s-evaluates" % label, False, detail=lambda: (det(), r.tb))
             return None
@@ -682,6 +837,27 @@ def h_repair_dcop(env):
                   eq(got, exp), detail=lambda: (det(), got, exp))
     else:
         env.prove("repairdcop.one-communication-constraint-per-candidate-computation", set(comm_cs) == set(K), detail=det)
+    # ---- frame: nothing the constraints were built from, or evaluated on, has been written into
+    env.prove("repairdcop.frame.assignment-shared-by-all-evaluations-unchanged",
+              set(shared) == set(asg) and all(shared[k_] is asg[k_] for k_ in asg), detail=lambda: dict(handed=asg, after=shared))
+    env.prove("repairdcop.frame.candidate-info-unchanged[after-evaluating-the-constraints]", info == info_before,
+              detail=lambda: dict(before=info_before, after=info))
+    env.prove("repairdcop.frame.binary-variable-table-unchanged", _table(orphaned_binvars) == vars_before)
+    now = _observe_deployment(d, cg, agents, comps)
+    env.prove("repairdcop.frame.discovery-and-computation-graph-unchanged", now == pristine, detail=lambda: dict(before=pristine, after=now))
+    # the same information serves a second build (the agent sets up its repair again when another agent leaves): same values
+    first = [val("hosted", [hosted_cs[o] for o in K]), val("capacity", [capacity_c]), val("hosting", [hosting_c]),
+             val("comm", [comm_cs[o] for o in K if o in comm_cs])]
+    b2 = env.call(build)
+    if isinstance(b2, Raised):
+        env.prove("repairdcop.frame.constraints-are-built-again-from-the-same-info", False, detail=lambda: (departed, own, info, b2.tb))
+        return
+    _, hosted2, capacity2, hosting2, comm2 = b2
+    second = [val("hosted", [hosted2[o] for o in K if o in hosted2]), val("capacity", [capacity2]), val("hosting", [hosting2]),
+              val("comm", [comm2[o] for o in K if o in comm2])]
+    if all(v is not None for v in first + second):
+        env.prove("repairdcop.frame.constraints-built-again-from-the-same-info-have-the-same-values",
+                  And([eq(x, y) for x, y in zip(first, second)]), detail=lambda: (det(), first, second))
 
 
 Contract(
@@ -773,7 +949,7 @@ def h_accept(env):
     comps = list(owner_of)
     hosts = ["a2", "a5"][:p.get("hosts", 2)]
     fp = {cn: env.real("footprint_" + cn, lo=0) for cn in comps}
-    reps, discs, rem, held, sent = {}, {}, {}, {}, []
+    reps, discs, rem, held, sent, stubs = {}, {}, {}, {}, [], {}
     for h in hosts:
         cap = env.real("capacity_" + h)
         active = [_ActiveComp("v_%s_%d" % (h, i), env.real("active_footprint_%s_%d" % (h, i), lo=0)) for i in range(p.get("active", 1))]
@@ -789,9 +965,32 @@ def h_accept(env):
             env.prove("accept.replication-computation-is-built", False, detail=lambda: r.tb)
             return
         r.message_sender = lambda src, dst, msg, prio=None, on_error=None: sent.append((src, dst, msg))
-        reps[h], discs[h] = r, d
+        reps[h], discs[h], stubs[h] = r, d, agent
         rem[h] = cap - ssum([c.footprint() for c in active])
         held[h] = {}
+    # frame: what a replication computation is handed and only reads - its agent's definition (capacity, routes, hosting
+    # costs), the footprints of the active computations, the other agent's discovery - and the replicas it already holds
+    all_agents = sorted(set(owner_of.values()) | set(hosts))
+
+    def observe_def(h_):
+        ad = stubs[h_].agent_def
+        return [ad.name, ad.capacity, ad.default_route, ad.default_hosting_cost, _table(ad.routes), _table(ad.hosting_costs)] + \
+               [ad.route(a) for a in all_agents] + [ad.hosting_cost(cn_) for cn_ in comps] + \
+               [c_.footprint() for c_ in stubs[h_].computations()]
+
+    def observe_disc(h_):
+        out = {}
+        for cn_ in comps:
+            try:
+                out[cn_] = (discs[h_].computation_agent(cn_), frozenset(discs[h_].replica_agents(cn_)))
+            except Exception:  # noqa  (not registered on this agent)
+                out[cn_] = None
+        return out
+
+    def same_obs(x, y):
+        return len(x) == len(y) and all((a is b) or ((not is_sym(a)) and (not is_sym(b)) and a == b) for a, b in zip(x, y))
+
+    defs_before = {h_: observe_def(h_) for h_ in hosts}
     history = []
     for step in range(p["ops"]):
         h = env.choice("host%d" % step, hosts)
@@ -800,6 +999,8 @@ def h_accept(env):
         r, d = reps[h], discs[h]
         owner = owner_of[cn]
         det = lambda: dict(k=k, history=history, op=(kind, h, cn), held=held, remaining=rem, footprints=fp)  # noqa
+        others_before = {hh: observe_disc(hh) for hh in hosts if hh != h}
+        entries_before = {hh: {c_: v_ for c_, v_ in reps[hh].hosted_replicas.items()} for hh in hosts}
         if kind == "remove":
             if cn not in held[h]:
                 env.assume(False)
@@ -819,8 +1020,14 @@ def h_accept(env):
             rc = p.get("replica_count", 2)
             was_held = cn in held[h]
             worst = _worst_case(held[h], k)
-            out = env.call(r._visit_path, 10, 1, path, [(2, path)], [owner, h], _comp_def(cn), fp[cn], rc, acc_hosts)
+            visited, cdef = [owner, h], _comp_def(cn)
+            out = env.call(r._visit_path, 10, 1, path, [(2, path)], visited, cdef, fp[cn], rc, acc_hosts)
             history.append(("offer", h, cn))
+            # (the paths table and the hosts list are updated in place by design: the visited path is removed, the accepting
+            # agent appended; not frame violations)
+            env.prove("accept.frame.visited-list-and-computation-definition-unchanged",
+                      visited == [owner, h] and cdef.name == cn and list(cdef.node.neighbors) == [] and cdef.algo.algo == "dsa",
+                      detail=lambda: (det(), visited, cdef))
             if isinstance(out, Raised):
                 env.prove("accept.no-raise", False, detail=lambda: (det(), out.tb))
                 return
@@ -838,6 +1045,19 @@ def h_accept(env):
                 got = r.hosted_replicas.get(cn)
                 env.prove("accept.replica-is-recorded-with-its-owner-and-footprint",
                           got is not None and got[0] == owner and eq(got[1], fp[cn]), detail=lambda: (det(), got))
+        # frame: an offer / a removal on one agent, about one computation, leaves every agent definition, the other agent's
+        # discovery and the entries of the other held replicas as they were
+        for hh in hosts:
+            env.prove("accept.frame.agent-definition-and-active-footprints-unchanged", same_obs(observe_def(hh), defs_before[hh]),
+                      detail=lambda: (det(), hh, defs_before[hh], observe_def(hh)))
+            if hh != h:
+                env.prove("accept.frame.discovery-of-the-other-agent-unchanged", observe_disc(hh) == others_before[hh],
+                          detail=lambda: (det(), hh, others_before[hh], observe_disc(hh)))
+            now = reps[hh].hosted_replicas
+            kept = [c_ for c_ in entries_before[hh] if not (hh == h and c_ == cn)]
+            env.prove("accept.frame.entries-of-the-other-held-replicas-unchanged",
+                      all(c_ in now and now[c_][0] == entries_before[hh][c_][0] and now[c_][1] is entries_before[hh][c_][1] for c_ in kept),
+                      detail=lambda: (det(), hh, entries_before[hh], dict(now)))
         # frame, both hosts: exactly the accepted and not yet removed replicas are held
         for hh in hosts:
             env.prove("accept.held-replicas-are-exactly-the-accepted-ones",
